@@ -56,10 +56,18 @@ def run_one(entry, with_tests):
                 subprocess.run(['rsync', '-a', '--exclude', '_build', '--exclude', '.git', REPO + '/', full + '/'], check=True)
                 shutil.copy(path, os.path.join(full, entry['file']))
                 b = os.path.join(full, '_b')
-                r = subprocess.run('cmake -S %s -B %s -G Ninja -DENABLE_CJSON_UTILS=On >/dev/null 2>&1 && cmake --build %s >/dev/null 2>&1 && '
-                                   'ctest --test-dir %s -j8 --timeout 120 2>&1 | tail -3' % (full, b, b, b), shell=True,
-                                   stdout=subprocess.PIPE, text=True)
-                tests = 'tests-pass' if '100% tests passed' in r.stdout else 'TESTS-FAIL'
+                r0 = subprocess.run('cmake -S %s -B %s -G Ninja >/dev/null 2>&1 && cmake --build %s 2>&1 | grep -m2 "error" '
+                                    % (full, b, b), shell=True, stdout=subprocess.PIPE, text=True)
+                if r0.stdout.strip():
+                    tests = 'BUILD-FAIL ' + r0.stdout.strip().split('\n')[0][-120:]
+                else:
+                    r = subprocess.run('ctest --test-dir %s -j8 --timeout 120 2>&1 | grep -i "failed\|passed" | head -8' % b, shell=True,
+                                       stdout=subprocess.PIPE, text=True)
+                    if '100% tests passed' in r.stdout:
+                        tests = 'tests-pass'
+                    else:
+                        failed = [l.split('-')[-1].strip().split()[0] for l in r.stdout.split('\n') if '- ' in l and '(' in l]
+                        tests = 'TESTS-FAIL ' + ','.join(failed[:6])
             finally:
                 shutil.rmtree(full, ignore_errors=True)
         env = dict(os.environ, CJSA_REPO=d, CJSA_OUT=d)
@@ -100,7 +108,7 @@ def main():
     with ThreadPoolExecutor(max_workers=jobs) as ex:
         for (e, verdict, msg) in ex.map(lambda e: run_one(e, with_tests), corpus):
             print('%-11s %-40s %-6s %s %s' % (verdict, e['id'], e['expect'], ','.join(e['props']), msg.strip()))
-            if verdict != 'OK' or 'TESTS-FAIL' in msg:
+            if verdict != 'OK' or 'TESTS-FAIL' in msg or 'BUILD-FAIL' in msg:
                 bad += 1
     print('%d corpus entries, %d not as expected' % (len(corpus), bad))
     return 1 if bad else 0
